@@ -188,6 +188,10 @@ def cond(c, var):
         if (isinstance(op, ast.Eq) and isinstance(r, ast.Constant) and r.value == 0 and not isinstance(r.value, bool) and isinstance(l, ast.Call)
                 and isinstance(l.func, ast.Name) and l.func.id == "len" and len(l.args) == 1):
             return "(CLenEq0 %s)" % hexpr(l.args[0], var)
+        # len(x) > 0 / != 0 / >= 1 : the negation of len(x) == 0 (same domain of definition: len raises on the same values)
+        if (isinstance(l, ast.Call) and isinstance(l.func, ast.Name) and l.func.id == "len" and len(l.args) == 1 and isinstance(r, ast.Constant)
+                and not isinstance(r.value, bool) and ((isinstance(op, (ast.Gt, ast.NotEq)) and r.value == 0) or (isinstance(op, ast.GtE) and r.value == 1))):
+            return "(CNot (CLenEq0 %s))" % hexpr(l.args[0], var)
     if isinstance(c, ast.Call) and isinstance(c.func, ast.Name) and c.func.id == "isinstance" and len(c.args) == 2:
         t = ast.unparse(c.args[1])
         if t in PRIMS or (isinstance(c.args[1], ast.Tuple) and all(isinstance(e, ast.Name) for e in c.args[1].elts)
@@ -418,6 +422,98 @@ def table_of(e):
     return None
 
 
+_inline_depth = [0]
+_fresh = [0]
+
+
+def helper_def(call, hook_name=None):
+    """the definition of a helper of _hooks.py called by name (module level or local to a registering function): exactly one def with that
+    name, no decorators, no *args / **kwargs, not a generator"""
+    if not (isinstance(call, ast.Call) and isinstance(call.func, ast.Name)):
+        return None
+    cands = funcs.get(call.func.id, [])
+    if len(cands) != 1:
+        return None
+    fn = cands[0]
+    if fn.decorator_list or fn.args.vararg or fn.args.kwarg or fn.args.posonlyargs or any(isinstance(n, (ast.Yield, ast.YieldFrom, ast.Await, ast.Global, ast.Nonlocal)) for n in ast.walk(fn)):
+        return None
+    if any(isinstance(n, ast.Call) and isinstance(n.func, ast.Name) and n.func.id == fn.name for n in ast.walk(fn)):
+        return None          # recursive
+    return fn
+
+
+def bind_params(fn, call, env):
+    """parameter -> argument AST (arguments substituted in the caller's environment).  Arguments must be pure (no effects, so evaluating
+    them where the parameter is used instead of at the call is the same) and are evaluated at most... exactly as often as the parameter
+    occurs: a pure expression may raise (object_[0]); like for let-bindings the translation below forces nothing extra — the
+    arguments admitted are names, constants, lsp_types attributes and literal tuples / lists of those, which cannot raise"""
+    params = [a.arg for a in fn.args.args] + [a.arg for a in fn.args.kwonlyargs]
+    b = {}
+    if len(call.args) > len(fn.args.args):
+        raise Reject("too many arguments in call of helper " + fn.name)
+    for pname, a in zip([a.arg for a in fn.args.args], call.args):
+        b[pname] = a
+    for kw in call.keywords:
+        if kw.arg is None or kw.arg not in params or kw.arg in b:
+            raise Reject("keyword argument outside grammar in call of helper " + fn.name)
+        b[kw.arg] = kw.value
+    defaults = dict(zip([a.arg for a in fn.args.args][len(fn.args.args) - len(fn.args.defaults):], fn.args.defaults))
+    defaults.update({a.arg: d for a, d in zip(fn.args.kwonlyargs, fn.args.kw_defaults) if d is not None})
+    for pname in params:
+        if pname not in b:
+            if pname not in defaults:
+                raise Reject("missing argument %s in call of helper %s" % (pname, fn.name))
+            b[pname] = defaults[pname]
+    out, lets = {}, []
+    for pname in params:                      # in parameter order = evaluation order of positional arguments
+        a = fold(subst(b[pname], env))
+        if isinstance(a, ast.Name) or is_literal(a):
+            out[pname] = a
+        elif pure(a):
+            # evaluated once, at the call, before the body: a let-binding in front of the inlined body (the binding machinery of
+            # block() keeps the evaluation point and splits conditional expressions)
+            lets.append(ast.Assign(targets=[ast.Name(id=pname, ctx=ast.Store())], value=a))
+        else:
+            raise Reject("argument of helper %s is not pure: %s" % (fn.name, ast.unparse(a)))
+    return out, lets
+
+
+class _RetToAssign(ast.NodeTransformer):
+    """inside an inlined helper body: `return E` becomes `<name> = E` followed by the caller's continuation (which is terminal)"""
+    def __init__(self, name, tail):
+        self.name, self.tail = name, tail
+
+    def visit_FunctionDef(self, node):
+        return node
+
+    def visit_Lambda(self, node):
+        return node
+
+    def visit_Return(self, node):
+        val = node.value if node.value is not None else ast.Constant(value=None)
+        return [ast.Assign(targets=[ast.Name(id=self.name, ctx=ast.Store())], value=val)] + copy.deepcopy(self.tail)
+
+
+def helper_body(fn):
+    return [st for st in fn.body if not (isinstance(st, ast.Expr) and isinstance(st.value, ast.Constant))]
+
+
+def find_helper_call(e):
+    """the single helper call inside a return / assignment expression, if everything else in it is pure"""
+    calls = [n for n in ast.walk(e) if isinstance(n, ast.Call) and helper_def(n) is not None]
+    return calls[0] if len(calls) == 1 else None
+
+
+def live(stmts):
+    """the statements that can execute: everything up to and including the first top-level return / raise"""
+    out = []
+    for st in stmts:
+        out.append(st)
+        if isinstance(st, (ast.Return, ast.Raise)):
+            break
+    return out
+
+
 def assigns_in(stmts):
     """does this statement list bind a local (on a path that can fall through to what follows)?"""
     for st in stmts:
@@ -455,7 +551,7 @@ def block(stmts, var, k, env=None):
         # raise (object_[0] on an empty list): the translation forces its evaluation at the same point with a branch whose two arms
         # are the same continuation, so an error of the binding is an error of the hook in the model as well.
         name = s.targets[0].id
-        if any(isinstance(n, ast.Name) and n.id == name and isinstance(n.ctx, ast.Store) for st in rest for n in ast.walk(st)):
+        if any(isinstance(n, ast.Name) and n.id == name and isinstance(n.ctx, ast.Store) for st in live(rest) for n in ast.walk(st)):
             raise Reject("local %s assigned more than once" % name)
         val = fold(subst(s.value, env))
         if is_literal(val):
@@ -519,12 +615,59 @@ def block(stmts, var, k, env=None):
         # object_[...] yields — JSON values — of which only lists and dicts are unhashable, and for those the real code raises TypeError
         # while the chain answers None: the forms admitted below evaluate the key under an isinstance(key, str) test or compare it)
         name, key = s.targets[0].id, subst(s.value.args[0], env)
-        if any(isinstance(n, ast.Name) and n.id == name and isinstance(n.ctx, ast.Store) for st in rest for n in ast.walk(st)):
+        if any(isinstance(n, ast.Name) and n.id == name and isinstance(n.ctx, ast.Store) for st in live(rest) for n in ast.walk(st)):
             raise Reject("local %s assigned more than once" % name)
         r = block(rest, var, k, dict(env, **{name: ast.Constant(value=None)}))
         for kstr, vexpr in reversed(table_of(subst(s.value.func.value, env))):
             r = "(TIf (CEqStr %s %s) %s %s)" % (hexpr(key, var), q(kstr), block(rest, var, k, dict(env, **{name: vexpr})), r)
         return r
+    if isinstance(s, (ast.Return, ast.Assign)) and s.value is not None and _inline_depth[0] < 4 and any(helper_def(n_) is not None for n_ in ast.walk(s.value)):
+        s = copy.deepcopy(s)          # the tree is shared by every registration of the same hook function: never edit it in place
+        hc = s.value if helper_def(s.value) is not None else (find_helper_call(s.value) if isinstance(s, ast.Return) else None)
+        if hc is not None and (isinstance(s, ast.Return) or (len(s.targets) == 1 and isinstance(s.targets[0], ast.Name))):
+            fn = helper_def(hc)
+            params, lets = bind_params(fn, hc, env)
+            # the helper's own locals and parameters must not collide with names bound around the call (the caller's continuation is
+            # translated in the same environment)
+            body = lets + copy.deepcopy(helper_body(fn))
+            _inline_depth[0] += 1
+            try:
+                if isinstance(s, ast.Return) and hc is s.value:
+                    # return f(args): the helper's body, with its parameters bound, IS the rest of the hook
+                    return block(body, var, k, dict(env, **params))
+                bound = {n.id for st in fn.body for n in ast.walk(st) if isinstance(n, ast.Name) and isinstance(n.ctx, ast.Store)}
+                bound |= set(params) | {l_.targets[0].id for l_ in lets}
+                if bound & ((set(env) | {var}) - {p_ for p_, a_ in params.items() if isinstance(a_, ast.Name) and a_.id == p_}):
+                    raise Reject("helper %s binds a name that is bound at the call site: %s" % (fn.name, sorted(bound & ((set(env) | {var}) - {p_ for p_, a_ in params.items() if isinstance(a_, ast.Name) and a_.id == p_}))))
+
+                if isinstance(s, ast.Return):
+                    # return E[f(args)] with everything else in E pure: t = f(args); return E[t]
+                    _fresh[0] += 1
+                    tname = "zz_inl_%d" % _fresh[0]
+
+                    class _Rep(ast.NodeTransformer):
+                        def visit_Call(self, node):
+                            if node is hc:
+                                return ast.Name(id=tname, ctx=ast.Load())
+                            return self.generic_visit(node)
+                    s2 = copy.copy(s)
+                    s2.value = _Rep().visit(s.value)
+                    tail = [s2]
+                else:
+                    tname = s.targets[0].id
+                    tail = list(rest)
+                    if not terminal(tail):
+                        raise Reject("a helper call is bound to a local but what follows does not end in return / raise on every path")
+                new_body = []
+                for st in body:
+                    r_ = _RetToAssign(tname, tail).visit(st)
+                    new_body += r_ if isinstance(r_, list) else [r_]
+                if not terminal(new_body):
+                    # the helper can fall off its end: it returns None there
+                    new_body += [ast.Assign(targets=[ast.Name(id=tname, ctx=ast.Store())], value=ast.Constant(value=None))] + copy.deepcopy(tail)
+                return block(new_body, var, k, dict(env, **params))
+            finally:
+                _inline_depth[0] -= 1
     if env:
         s = fold(_Subst(env).visit(copy.deepcopy(s))) if not isinstance(s, (ast.If,)) else ast.If(test=fold(subst(s.test, env)), body=s.body, orelse=s.orelse)
     if isinstance(s, ast.Return):
